@@ -208,15 +208,19 @@ class TokenPrinter(object):
     def integer(self, v):
         """Add an integer to the output code."""
 
-        s = repr(v)
         h = hex(v)
+        try:
+            s = repr(v)
+        except ValueError:
+            # The integer has too many digits for decimal string conversion (sys.set_int_max_str_digits)
+            s = None
 
         if self.previous_token == TokenTypes.SoftKeyword:
             self.delimiter(' ')
         elif self.previous_token in [TokenTypes.Identifier, TokenTypes.Keyword]:
             self.delimiter(' ')
 
-        self._code += h if len(h) < len(s) else s
+        self._code += h if s is None or len(h) < len(s) else s
 
         self.previous_token = TokenTypes.NumberLiteral
 
